@@ -365,14 +365,98 @@ theorem revRules_sound : ∀ s ∈ R.revRules, Sound s := by
   · exact rev_rev_sound
   · exact eq_rev_sound
 
+/-! ### `ZeroExt(n, y) >= c`, `Concat(0, y) >= c` -/
+theorem uge_val (w a b : Nat) (hw : 0 < w) :
+    bvCmp (fun _ x y => BitVec.ule y x) (.bv w a) (.bv w b) = .bool (decide (b % 2 ^ w ≤ a % 2 ^ w)) := by
+  simp [bvCmp, hw, BitVec.ule]
+
+theorem uge_aux (env : Env) (p : P) (wy : Nat) (hy : p.y.width = some wy) (hw : p.w = wy + p.n) (hn : 0 < p.n) (L : Expr)
+    (hL : L = R.zextY p ∨ L = R.cat0Y p)
+    (hwt : bvCmp (fun _ x y => BitVec.ule y x) (eval env L) (eval env (.bvv p.c1 p.w)) ≠ .err) :
+    ∃ Y : BitVec wy, 0 < wy ∧ eval env p.y = Val.ofBV Y ∧
+      bvCmp (fun _ x y => BitVec.ule y x) (eval env L) (eval env (.bvv p.c1 p.w)) = .bool (decide (p.c1 % 2 ^ p.w ≤ Y.toNat)) := by
+  have hwpos : 0 < p.w := by omega
+  rcases val_view (eval env p.y) (eval_wf env p.y) with hx | ⟨b, hx⟩ | ⟨wx, X, hx, hwx⟩
+  · rcases hL with rfl | rfl <;>
+      simp [R.zextY, R.cat0Y, eval_app, evalList_cons, evalList_nil, applyOp, foldVals, hx, valConcat] at hwt
+  · rcases hL with rfl | rfl <;>
+      simp [R.zextY, R.cat0Y, eval_app, evalList_cons, evalList_nil, applyOp, foldVals, hx, valConcat] at hwt
+    all_goals (simp [eval, hn, valConcat] at hwt)
+  · have hwid := eval_width env p.y wx X.toNat (by rw [hx]; rfl)
+    rw [hy] at hwid
+    cases hwid
+    refine ⟨X, hwx, hx, ?_⟩
+    have hlit : eval env (.bvv p.c1 p.w) = .bv p.w (p.c1 % 2 ^ p.w) := by simp [eval, hwpos]
+    have hXlt : X.toNat < 2 ^ wy := X.isLt
+    have hpow : 2 ^ wy ≤ 2 ^ p.w := Nat.pow_le_pow_right (by omega) (by omega)
+    rcases hL with rfl | rfl
+    · have hLv : eval env (R.zextY p) = .bv p.w X.toNat := by
+        simp only [R.zextY, eval_app, evalList_cons, evalList_nil, hx, applyOp, Val.ofBV, hwx, if_true, ← hw]
+        congr 1
+        simp [BitVec.zeroExtend, Nat.mod_eq_of_lt hXlt, Nat.mod_eq_of_lt (Nat.lt_of_lt_of_le hXlt (hw ▸ hpow))]
+      rw [hLv, hlit, uge_val _ _ _ hwpos, Nat.mod_mod, Nat.mod_eq_of_lt (Nat.lt_of_lt_of_le hXlt hpow)]
+    · have hLv : eval env (R.cat0Y p) = .bv p.w X.toNat := by
+        simp only [R.cat0Y, eval_app, evalList_cons, evalList_nil, hx, applyOp, foldVals, List.foldl, eval, hn, if_true,
+          Val.ofBV, valConcat]
+        have e1 : (BitVec.ofNat p.n (0 % 2 ^ p.n) ++ BitVec.ofNat wy X.toNat).toNat = X.toNat := by
+          simp [BitVec.toNat_append, Nat.mod_eq_of_lt hXlt]
+        rw [e1, show p.n + wy = p.w by omega]
+      rw [hLv, hlit, uge_val _ _ _ hwpos, Nat.mod_mod, Nat.mod_eq_of_lt (Nat.lt_of_lt_of_le hXlt hpow)]
+
+theorem uge_low_aux (env : Env) (p : P) (L : Expr) (hL : L = R.zextY p ∨ L = R.cat0Y p) (hs : R.ugeLowSide p = true)
+    (hwt : eval env (.app .uge [L, .bvv p.c1 p.w]) ≠ .err) :
+    eval env (.app .uge [p.y, .bvv (p.c1 % 2 ^ p.w) p.c2]) = eval env (.app .uge [L, .bvv p.c1 p.w]) := by
+  simp only [R.ugeLowSide] at hs
+  split at hs
+  · rename_i wy hy
+    simp only [decide_eq_true_eq] at hs
+    obtain ⟨hw, hn, hc, hc2⟩ := hs
+    simp only [eval_app, evalList_cons, evalList_nil, applyOp] at hwt ⊢
+    obtain ⟨Y, hwy, hye, hv⟩ := uge_aux env p wy hy hw hn L hL hwt
+    rw [hv, hye, hc2, show eval env (.bvv (p.c1 % 2 ^ p.w) wy) = .bv wy ((p.c1 % 2 ^ p.w) % 2 ^ wy) by simp [eval, hwy]]
+    simp only [Val.ofBV]
+    rw [uge_val _ _ _ hwy, Nat.mod_mod, Nat.mod_eq_of_lt hc, Nat.mod_eq_of_lt Y.isLt]
+  · simp at hs
+
+theorem uge_high_aux (env : Env) (p : P) (L : Expr) (hL : L = R.zextY p ∨ L = R.cat0Y p) (hs : R.ugeHighSide p = true)
+    (hwt : eval env (.app .uge [L, .bvv p.c1 p.w]) ≠ .err) :
+    eval env (.boolv false) = eval env (.app .uge [L, .bvv p.c1 p.w]) := by
+  simp only [R.ugeHighSide] at hs
+  split at hs
+  · rename_i wy hy
+    simp only [decide_eq_true_eq] at hs
+    obtain ⟨hw, hn, hc⟩ := hs
+    simp only [eval_app, evalList_cons, evalList_nil, applyOp] at hwt ⊢
+    obtain ⟨Y, hwy, hye, hv⟩ := uge_aux env p wy hy hw hn L hL hwt
+    rw [hv]
+    have : ¬ p.c1 % 2 ^ p.w ≤ Y.toNat := by have := Y.isLt; omega
+    simp [eval, this]
+  · simp at hs
+
+theorem uge_zext_low_sound : Sound R.uge_zext_low := fun p env hs hwt => uge_low_aux env p _ (Or.inl rfl) hs hwt
+theorem uge_zext_high_sound : Sound R.uge_zext_high := fun p env hs hwt => uge_high_aux env p _ (Or.inl rfl) hs hwt
+theorem uge_cat0_low_sound : Sound R.uge_cat0_low := fun p env hs hwt => uge_low_aux env p _ (Or.inr rfl) hs hwt
+theorem uge_cat0_high_sound : Sound R.uge_cat0_high := fun p env hs hwt => uge_high_aux env p _ (Or.inr rfl) hs hwt
+
+theorem ugeZext_sound : ∀ s ∈ R.ugeZext, Sound s := by
+  intro s hs
+  simp only [R.ugeZext, List.mem_cons, List.mem_nil_iff, or_false] at hs
+  rcases hs with h | h | h | h <;> subst h
+  · exact uge_zext_low_sound
+  · exact uge_zext_high_sound
+  · exact uge_cat0_low_sound
+  · exact uge_cat0_high_sound
+
 theorem all_sound : ∀ s ∈ R.all, Sound s := by
   intro s hs
   rcases List.mem_append.mp hs with h | h
   · rcases List.mem_append.mp h with h | h
     · rcases List.mem_append.mp h with h | h
-      · exact base_sound s h
-      · exact widthy_sound s h
-    · exact iteCmp_sound s h
-  · exact revRules_sound s h
+      · rcases List.mem_append.mp h with h | h
+        · exact base_sound s h
+        · exact widthy_sound s h
+      · exact iteCmp_sound s h
+    · exact revRules_sound s h
+  · exact ugeZext_sound s h
 
 end Claripy.AST
